@@ -74,7 +74,16 @@ def outfault : Handler := fun _ impl =>
   let ok : Bool := impl = "prefix ok"
   { model := "prefix ok", oracle := if ok then none else some s!"after a timed-out partial write: {impl}" }
 
-def handlersC11 : List (String × Handler) := [("out", out), ("outfault", outfault)]
-def handlersC14 : List (String × Handler) := [("xids", xids), ("conc", conc), ("conclookup", conc), ("concdhcp", conc)]
+/-- `outreal streams n seed`: real library messages on several connections of one process; every connection carries
+    exactly the encodings of the messages submitted to it, in order (each connection is its own outbound system) -/
+def outreal : Handler := fun args impl =>
+  match args.map natArg with
+  | [some s, some n, some _] =>
+    let want := s!"ok {s * n}"
+    { model := want, oracle := if impl = want then none else some s!"{s} connections x {n} real messages: {impl}" }
+  | _ => unmodelled
+
+def handlersC11 : List (String × Handler) := [("out", out), ("outfault", outfault), ("outreal", outreal)]
+def handlersC14 : List (String × Handler) := [("xids", xids), ("conc", conc), ("conclookup", conc), ("concdhcp", conc), ("xtalk", conc)]
 
 end OFV.Driver.Stream
